@@ -1657,3 +1657,102 @@ Proof.
   simpl in H1. subst k1. destruct (failed sc1 k); [intros H; inversion H|].
   destruct (bad sc1 k); intros H; inversion H; subst. exists l1. split; auto.
 Qed.
+
+(* ================================================================== refusals *)
+Lemma level_pull_refused_cycle fuel lv sc k up u v :
+  reach (ups sc) k u -> In v (ups sc u) -> reach (ups sc) v u ->
+  level_pull fuel lv sc k up = (sc, up, [], Err ECyclic).
+Proof.
+  intros Rk Hv Rv. unfold level_pull. destruct (closure fuel (ups sc) k) as [D|] eqn:C; auto. exfalso.
+  destruct (closure_reach_some _ _ _ _ _ C Rk) as (f' & b & _ & Hb).
+  rewrite (closure_cycle_refused (ups sc) u) in Hb; [discriminate|]. exists v. auto.
+Qed.
+
+Lemma level_pull_refused_executor fuel lv sc k up D v :
+  closure fuel (ups sc) k = Some D -> reach (ups sc) k v -> exe sc v = true ->
+  level_pull fuel lv sc k up = (sc, up, [], Err EExecutor).
+Proof.
+  intros C R Hx. unfold level_pull. rewrite C.
+  assert (existsb (exe sc) D = true) as ->; auto.
+  apply existsb_exists. exists v. split; auto. apply (closure_sound _ _ _ _ C). exact R.
+Qed.
+
+(* acyclic data (a rank decreasing along every data edge) is never refused as cyclic *)
+Lemma closure_acyclic up (rank : nat -> nat) : (forall v u, In u (up v) -> rank u < rank v) ->
+  forall fuel k, rank k < fuel -> exists D, closure fuel up k = Some D.
+Proof.
+  intros Hr. induction fuel as [|f IH]; intros k Hk; [lia|]. rewrite closure_unfold.
+  assert (G : forall l a, (forall u, In u l -> rank u < f) -> exists D, fold_left (cl_step f up) l (Some a) = Some D).
+  { induction l as [|u r IHl]; intros a Hl; cbn [fold_left]; [eauto|].
+    destruct (IH u (Hl u (or_introl eq_refl))) as [b Hb].
+    assert (R : cl_step f up (Some a) u = Some (union a b)).
+    { cbv beta iota delta [cl_step]. rewrite Hb. reflexivity. }
+    rewrite R. apply IHl. intros; apply Hl; right; auto. }
+  apply G. intros u Hu. specialize (Hr _ _ Hu). lia.
+Qed.
+
+(* ================================================================== witnesses *)
+Definition nofn {A} : nat -> list A := fun _ => [].
+Definition nob : nat -> bool := fun _ => false.
+Definition nolbl : nat -> string := fun i => match i with 0 => "a" | 1 => "b" | 2 => "c" | _ => "d" end.
+
+(* S12: a macro m (node 0 of the outer scope) holding a -> b; outside, m >> d.  Pulling b (even
+   without parent scopes) runs m, m emits `ran`, d runs -- it is not upstream of anything pulled *)
+Definition w_inner : scope :=
+  mkScope nolbl (fun i => match i with 1 => [0] | _ => [] end) nofn nofn nofn nofn nob nob nob PMacro [] true false.
+Definition w_outer : scope :=
+  mkScope nolbl (fun i => match i with 1 => [0] | _ => [] end)
+          (fun i => match i with 1 => [0] | _ => [] end) nofn
+          (fun i => match i with 0 => [(1, IRun)] | _ => [] end) nofn nob nob nob PNone [] true false.
+Definition w_stack : stack := [(w_inner, 1); (w_outer, 0)].
+
+Lemma WF_empty sc : (forall i, c_run sc i = []) -> (forall i, c_acc sc i = []) -> (forall i, c_ran sc i = []) -> WF sc.
+Proof.
+  intros H1 H2 H3. constructor.
+  - intros e r s. rewrite H3. destruct s; simpl; rewrite ?H1, ?H2; tauto.
+  - intros r s. destruct s; simpl; rewrite ?H1, ?H2; constructor.
+  - intros e. rewrite H3. constructor.
+Qed.
+
+Lemma w_outer_WF : WF w_outer.
+Proof.
+  constructor.
+  - intros e r s. destruct s; destruct r as [|[|r]]; destruct e as [|e]; simpl; split; intros H;
+      repeat (destruct H as [H|H]; try discriminate; try (inversion H; fail)); auto; try contradiction.
+  - intros r s. destruct s; destruct r as [|[|r]]; simpl; repeat constructor; simpl; tauto.
+  - intros e. destruct e as [|e]; simpl; repeat constructor; simpl; tauto.
+Qed.
+Lemma w_stack_wf : stack_wf w_stack.
+Proof.
+  constructor; [simpl; apply WF_empty; reflexivity|]. constructor; [exact w_outer_WF|constructor].
+Qed.
+
+(* signal order: n.run = [b.ran; a.ran] before, [a.ran; b.ran] after pulling t (t <- n) *)
+Definition w_order : scope :=
+  mkScope nolbl (fun i => match i with 3 => [2] | _ => [] end)
+          (fun i => match i with 2 => [1; 0] | _ => [] end) nofn
+          (fun i => match i with 0 => [(2, IRun)] | 1 => [(2, IRun)] | _ => [] end) nofn nob nob nob PNone [] true false.
+Lemma w_order_WF : WF w_order.
+Proof.
+  constructor.
+  - intros e r s. destruct s; destruct r as [|[|[|r]]]; destruct e as [|[|e]]; simpl; split; intros H;
+      repeat (destruct H as [H|H]; try discriminate; try (inversion H; fail)); auto; try contradiction.
+  - intros r s. destruct s; destruct r as [|[|[|r]]]; simpl; repeat constructor; simpl; intuition discriminate.
+  - intros e. destruct e as [|[|e]]; simpl; repeat constructor; simpl; tauto.
+Qed.
+
+(* non-vacuity instance for Props/C11.v *)
+Definition ex_inner : scope :=
+  mkScope nolbl (fun i => match i with 1 => [0] | _ => [] end)
+          (fun i => match i with 2 => [0] | _ => [] end) nofn
+          (fun i => match i with 0 => [(2, IRun)] | _ => [] end) nofn nob nob nob PMacro [2] true false.
+Definition ex_outer : scope :=
+  mkScope nolbl (fun i => match i with 1 => [0] | _ => [] end) nofn nofn nofn nofn nob nob nob PNone [] true false.
+Lemma ex_stack_wf : stack_wf [(ex_inner, 1); (ex_outer, 1)].
+Proof.
+  constructor; [|constructor; [simpl; apply WF_empty; reflexivity|constructor]]. simpl. constructor.
+  - intros e r s. destruct s; destruct r as [|[|[|r]]]; destruct e as [|e]; simpl; split; intros H;
+      repeat (destruct H as [H|H]; try discriminate; try (inversion H; fail)); auto; try contradiction.
+  - intros r s. destruct s; destruct r as [|[|[|r]]]; simpl; repeat constructor; simpl; tauto.
+  - intros e. destruct e as [|e]; simpl; repeat constructor; simpl; tauto.
+Qed.
